@@ -84,6 +84,13 @@ func c05Leaf(k int, su, ss string, registered bool) (interface{}, interface{}) {
 			return v, 31
 		}
 		return v, blankI(0)
+	case 12:
+		// nested wrappers: the outermost decides
+		return redact.Safe(redact.Safe(ss)), redact.Safe(ss)
+	case 13:
+		return redact.Unsafe(redact.Safe(ss)), blankLeaf{}
+	case 14:
+		return redact.Safe(redact.Unsafe(ss)), redact.Safe(ss)
 	case 10:
 		// a SafeValue with a String method (its text is safe)
 		return safeStringer(ss), safeStringer(ss)
@@ -110,6 +117,12 @@ func H_c05(p []int) {
 	}
 	vAssumeValidUTF8(su)
 	vAssumeValidUTF8(ssb)
+	if p[0] == 13 || p[1] == 13 || p[2] == 13 {
+		// leaf 13 renders the second payload as unsafe text: LF-free, like every unsafe payload here
+		for k := range ssb {
+			vAssume(ssb[k] != '\n')
+		}
+	}
 	if reg {
 		redact.RegisterSafeType(reflect.TypeOf(regInt(0)))
 	}
